@@ -11,7 +11,7 @@ import time
 
 VERIF = os.path.dirname(os.path.dirname(os.path.dirname(os.path.abspath(__file__))))
 REPO = os.environ.get("FBR_REPO", "/repo")
-CACHE = os.path.join(VERIF, ".cache")
+CACHE = os.environ.get("FBR_CACHE") or os.path.join(VERIF, ".cache")
 DRIVER = os.path.join(VERIF, "engine/fbr-facts/target/release/fbr-facts")
 
 CONFIGS = {
@@ -76,6 +76,7 @@ def extract(cfg, repo=None, cache=None):
     meta = out + ".meta"
     lock = open(os.path.join(cache, "lock-%s" % cfg), "w")
     fcntl.flock(lock, fcntl.LOCK_EX)
+    tlock = None
     try:
         want = repo_hash(repo)
         if os.path.exists(out) and os.path.exists(meta):
@@ -88,7 +89,9 @@ def extract(cfg, repo=None, cache=None):
         sysroot = subprocess.check_output(
             ["rustc", "+nightly", "--print", "sysroot"], text=True
         ).strip()
-        tdir = os.path.join(cache, "target-%s" % cfg)
+        # dependencies are identical for every copy of the tree: scratch copies (thorough tier self-test) share the
+        # main target directory so that only the crate itself is re-checked
+        tdir = os.path.join(os.environ.get("FBR_TARGET_BASE") or cache, "target-%s" % cfg)
         env = dict(os.environ)
         env.update(
             LD_LIBRARY_PATH=sysroot + "/lib",
@@ -102,6 +105,10 @@ def extract(cfg, repo=None, cache=None):
             CARGO_INCREMENTAL="0",
         )
         env.pop("FBR_CRATE", None)
+        # the target directory may be shared with other runs (thorough-tier self-tests): one extraction at a time per directory
+        os.makedirs(tdir, exist_ok=True)
+        tlock = open(os.path.join(tdir, ".fbr-lock"), "w")
+        fcntl.flock(tlock, fcntl.LOCK_EX)
         # cargo skips the wrapper when the member crate looks fresh
         fp = os.path.join(tdir, "debug", ".fingerprint")
         if os.path.isdir(fp):
@@ -129,6 +136,8 @@ def extract(cfg, repo=None, cache=None):
         json.dump({"hash": want, "nonce": nonce}, open(meta, "w"))
         return out
     finally:
+        if tlock is not None:
+            tlock.close()
         fcntl.flock(lock, fcntl.LOCK_UN)
         lock.close()
 
